@@ -82,7 +82,10 @@ class BaseTranslateFilter:
     def _resolve_translations(self, context: RenderContext) -> Translations:
         return cast(
             Translations,
-            context.resolve(self.translations_var, self.default_translations),
+            # Global data only. Templates can't choose the object we call.
+            context.base_globals.get(
+                self.translations_var, self.default_translations
+            ),
         )
 
 
